@@ -9,7 +9,7 @@ import re
 from common import *
 
 SPEC = os.path.join(SPECS, "intern", "Intern.tla")
-CFG = {"quick": [dict(NQ=2, REVS=1, MaxOps=5, MaxWrites=3), dict(NQ=2, REVS=2, MaxOps=5, MaxWrites=4, Vals="{0, 2}")],
+CFG = {"quick": [dict(NQ=2, REVS=1, MaxOps=5, MaxWrites=3, Vals="{0, 2}"), dict(NQ=2, REVS=2, MaxOps=5, MaxWrites=4, Vals="{0, 2}")],
        "thorough": [dict(NQ=2, REVS=1, MaxOps=6, MaxWrites=4), dict(NQ=2, REVS=2, MaxOps=7, MaxWrites=5, Vals="{0, 2}"),
                     dict(NQ=3, REVS=1, MaxOps=5, MaxWrites=3, Vals="{0, 2}")]}
 INVARIANTS = ["NoBad", "Canonical", "HandleValid", "LruExact", "EmitInv"]
